@@ -446,7 +446,7 @@ class Pyd:
     def acc_fields(self, ci: ClassInfo, view):
         ub = self.pkg.unknown_bases(ci)
         extra = [self.unknown("base:" + b) for b in ub]
-        return And([self.field_acc(f, view, ci.module) for f in self.pkg.all_fields(ci).values()] + extra)
+        return And([self.field_acc(f, view, f.module or ci.module) for f in self.pkg.all_fields(ci).values()] + extra)
 
     def acc_class(self, ci: ClassInfo, node):
         return z3.And(node.is_obj(), Or(z3.And(g, self.acc_fields(ci, view)) for g, view, _ in self.views(node)))
@@ -537,7 +537,7 @@ class Pyd:
             if ent is None:
                 continue
             p, sub = ent
-            self.pairs(f.ann, sub, ci.module, f.discriminator, z3.And(guard, p), out, depth + 1)
+            self.pairs(f.ann, sub, f.module or ci.module, f.discriminator, z3.And(guard, p), out, depth + 1)
 
     # ---------------- faithfulness (assumes Conf and Acc): exposure by python name, typename class, dump by alias
     def faith(self, ann, node, mod, disc=None):
@@ -601,7 +601,7 @@ class Pyd:
             if f is None:
                 cs.append(z3.Not(p))  # a returned key that no field exposes
             else:
-                cs.append(z3.Implies(p, self.faith(f.ann, sub, ci.module, f.discriminator)))
+                cs.append(z3.Implies(p, self.faith(f.ann, sub, f.module or ci.module, f.discriminator)))
         for f in fields.values():
             ent = view.get(f.key)
             absent = T(True) if ent is None else z3.Not(ent[0])
@@ -744,7 +744,7 @@ def explain(pyd: Pyd, m, ann, node, mod, disc=None) -> List[dict]:
 def explain_fields(pyd: Pyd, m, ci: ClassInfo, node, i, view) -> List[dict]:
     out = []
     for f in pyd.pkg.all_fields(ci).values():
-        if _true(m, pyd.field_acc(f, view, ci.module)):
+        if _true(m, pyd.field_acc(f, view, f.module or ci.module)):
             continue
         ent = None
         if f.alias is not None and f.alias in view and _true(m, view[f.alias][0]):
@@ -754,7 +754,7 @@ def explain_fields(pyd: Pyd, m, ci: ClassInfo, node, i, view) -> List[dict]:
         if ent is None:
             out.append({"node": node, "reason": "missing", "variant": i, "key": f.key, "cls": ci.name, "field": f.name})
         else:
-            out.extend(explain(pyd, m, f.ann, ent[1], ci.module, f.discriminator))
+            out.extend(explain(pyd, m, f.ann, ent[1], f.module or ci.module, f.discriminator))
     return out
 
 
